@@ -273,6 +273,7 @@ func vkvRun(ctx contract.KContext) (*contract.Response, error) {
 	}
 	var out bytes.Buffer
 	gas := int64(0)
+	var more contract.Limits
 	for _, st := range strings.Split(prog, ";") {
 		f := strings.Fields(st)
 		if len(f) == 0 {
@@ -335,11 +336,23 @@ func vkvRun(ctx contract.KContext) (*contract.Response, error) {
 			var n int64
 			fmt.Sscan(f[1], &n)
 			gas += n
+		case "cpu", "mem", "disk": // resources that are converted to gas by rounding up to the genesis rates
+			var n int64
+			fmt.Sscan(f[1], &n)
+			switch f[0] {
+			case "cpu":
+				more.Cpu += n
+			case "mem":
+				more.Memory += n
+			default:
+				more.Disk += n
+			}
 		default:
 			return nil, fmt.Errorf("vkv: bad statement %q", st)
 		}
 	}
-	ctx.AddResourceUsed(contract.Limits{XFee: gas})
+	more.XFee = gas
+	ctx.AddResourceUsed(more)
 	return &contract.Response{Status: 200, Body: out.Bytes()}, nil
 }
 
